@@ -1,6 +1,7 @@
 pub mod client;
 pub mod forge;
 pub mod fstree;
+pub mod hist;
 pub mod json;
 pub mod keys;
 pub mod memtransport;
